@@ -363,6 +363,7 @@ func registerIntercepts(g *Engine) {
 		return e.strEq(StringVal{b: e.bytesOfSlice(x)}, StringVal{b: e.bytesOfSlice(y)})
 	}
 	ic["verif:verifTier"] = func(e *Exec, fn *ssa.Function, a []Value) Value { return e.tb.Const(64, uint64(e.eng.tier)) }
+	ic["verif:verifSettle"] = func(e *Exec, fn *ssa.Function, a []Value) Value { return nil }
 	ic["verif:verifRunGoroutines"] = func(e *Exec, fn *ssa.Function, a []Value) Value {
 		for len(e.goQueue) > 0 {
 			th := e.goQueue[0]
